@@ -8,7 +8,14 @@ harness/tape.py.  From the chronological trace the decisions of every generation
 branches, HARM acceptances) are extracted; the Lean machine replays them and must produce the same logbook,
 the same evaluate calls (generation, individual), the same hall-of-fame feed, the same population and fitnesses
 at EVERY boundary and the same clone/mate/mutate call sequence.  The oracle evaluates the statement itself on
-the real objects at every boundary."""
+the real objects at every boundary.
+
+Composed replay (second protocol line of every run with a hall of fame): the machine of Core/LoopsCompose.lean runs the
+same generations with the C06 MODELS of selBest / selRandom / selTournament as toolbox.select (fed the recorded
+random.choice results; the selected positions are the model's, compared with the real ones), the C08 MODEL of
+HallOfFame(maxsize) fed by the loop (content compared with the real hall of fame at every boundary), list objects
+with identities (is the population the caller's list object?) and, for eaGenerateUpdate, the ask/tell protocol state
+(what generate() handed out, what update() was given, with which fitness)."""
 import math
 import random
 
@@ -23,7 +30,9 @@ ANCHORS = [("deap/algorithms.py", ["eaSimple", "eaMuPlusLambda", "eaMuCommaLambd
            ("deap/gp.py", ["harm", "staticLimit"]),
            ("deap/tools/support.py", ["HallOfFame.update", "Statistics.compile", "Logbook.record"])]
 LEVEL = "proof"
-RULE = ("families: GA on bit lists (one-/two-point crossover, flip-bit; tournament / roulette / best selection) with "
+RULE = ("every run with a hall of fame is also replayed through the COMPOSED model (C06 selectors, C08 hall of fame, list "
+        "identity, ask/tell state; selection computed by the model for selBest, selRandom, selTournament(2|3); roulette / NSGA-II "
+        "selections are read off the trace); families: GA on bit lists (one-/two-point crossover, flip-bit; tournament / roulette / best selection) with "
         "eaSimple, mu+lambda, mu,lambda; mu+lambda with selBest (monotone best); NSGA-II mu+lambda (two objectives); "
         "GP eaSimple and gp.harm (nbrindsmodel small, mincutoff 1/2/20 so that acceptances are really rejected); CMA-ES "
         "eaGenerateUpdate, and eaGenerateUpdate with a particle-swarm-style ask/tell strategy whose persistent individuals "
@@ -36,7 +45,9 @@ TRUSTED = ["operator contract of mate/mutate (C02/C09/C10/C11) and clone = deepc
            "HARM-GP's acceptance arithmetic is replayed in IEEE (Lean Float with the operation order of gp.py 1084-1122, libm exp/log): "
            "the model derives every acceptfunc result from the recorded random() draw; a second protocol line replays the same "
            "run with the results read off the trace",
-           "CMA-ES strategy update (numpy linear algebra) is outside the model: only the order in which update() leaves the list"]
+           "CMA-ES strategy update (numpy linear algebra) is outside the model: only the order in which update() leaves the list "
+           "and the ask/tell protocol (which objects generate() handed out, which objects update() received, evaluated) are modelled",
+           "hall of fame similarity = equality of the genotype (the default operator.eq on list / tree individuals)"]
 ASSUMPTIONS = ["toolbox.evaluate is a pure function of the genotype returning a non-empty tuple",
                "individuals that come with a fitness carry the value evaluate gives for them (pre-evaluated truthfully)",
                "the initial population consists of distinct objects (the same unevaluated object listed twice would be evaluated "
@@ -44,8 +55,11 @@ ASSUMPTIONS = ["toolbox.evaluate is a pure function of the genotype returning a 
                "toolbox.select returns exactly k members of its input (mu <= lambda for the mu/lambda loops; population "
                "non-empty for gp.harm; size >= 2 when varOr can take the crossover branch)"]
 EXPLANATION = ("Theorems C03.* are proved for the abstract generational machine of Core/Loops.lean for every number of generations "
-               "and every decision tape, relative to the operator contract (operators may return their arguments or new objects); the "
-               "correspondence replays recorded runs of the real loops, HARM-GP's acceptance test included.")
+               "and every decision tape, relative to the operator contract (operators may return their arguments or new objects), and "
+               "for its composition with the library components (Core/LoopsCompose.lean: C06 selection models, C08 hall of fame "
+               "model, list objects, ask/tell state): hof_best_ge_logged, plus_monotone_selBest, population_updated_in_place, "
+               "generate_update_protocol; the correspondence replays recorded runs of the real loops through both machines, "
+               "HARM-GP's acceptance test included.")
 
 
 # ------------------------------------------------------------------------------------------
@@ -326,6 +340,51 @@ def dec_harm(entries, npop, nbr, offspring):
     return "%s/%s" % (sl(nat_turns), sl(acc_turns)), "%s/%s" % (sl(nat_turns_r), sl(acc_turns_r))
 
 
+SEL_TOKEN = {"best": "b", "random": "r", "tourn2": "t2", "tourn3": "t3"}
+
+
+def sel_token(name, S):
+    """protocol token of one toolbox.select call for the composed model: the operator and the random.choice results
+    it consumed (the model computes the selection itself); for operators the composed model does not compute (roulette,
+    NSGA-II) the positions chosen, read off the trace"""
+    tok = SEL_TOKEN.get(name)
+    draws = S[4]
+    if tok is None or any(dr[0] != "choice" for dr in draws) or (tok == "b" and draws):
+        return "p:%s" % sl(S[1])
+    if tok == "b":
+        return "b"
+    return "%s:%s" % (tok, sl(dr[2] for dr in draws))
+
+
+def composed_line(d, loop, gens_entries, gens, heap_tok, pops, rec, script, nbr_eff):
+    """the run as a protocol line for the COMPOSED machine (Core/LoopsCompose.lean): the selection is not read off the
+    trace but computed by the C06 models from the recorded random.choice results; the hall of fame is the C08 model"""
+    table = ";".join("%s>%s" % kv for kv in rec.table.items()) or "-"
+    hs = d.get("hofsize", 1)
+    if hs < 1:
+        return None
+    if loop == "gu":
+        return "C03 c-gu %s %d %s" % (table, hs, "+".join(gens) if gens else "-")
+    if loop == "harm":
+        return "C03 c-harm %s %s %s %s %d %d %s" % (heap_tok, pops, table, script, nbr_eff, hs, "+".join(gens) if gens else "-")
+    out = []
+    for (entries, _), g in zip(gens_entries, gens):
+        S = [e for e in entries if e[0] == "S"]
+        if len(S) != 1:
+            return None
+        tok = sel_token(d["sel"], S[0])
+        f = g.split("/")
+        if loop == "simple":
+            out.append("%s/%s/%s" % (tok, f[1], f[2]))
+        else:
+            out.append("%s/%s" % (f[0], tok))
+    g = "+".join(out) if out else "-"
+    if loop == "simple":
+        return "C03 c-simple %s %s %s %s %d %s" % (heap_tok, pops, table, script, hs, g)
+    kind = "c-comma" if loop == "comma" else "c-plus"
+    return "C03 %s %s %s %s %s %d %d %d %s" % (kind, heap_tok, pops, table, script, d["mu"], d["lam"], hs, g)
+
+
 # ------------------------------------------------------------------------------------------
 # evaluate one case
 # ------------------------------------------------------------------------------------------
@@ -361,6 +420,7 @@ def evaluate(d):
     cxpb, mutpb = float(d.get("cxpb", 0)), float(d.get("mutpb", 0))
 
     boundaries = []      # per boundary: dict(pop oids, list id, fits, truthful?, best)
+    asktell = []         # generate-update: [oids generate() returned, what update() was handed (oid:fit)]
     ev_calls = []        # (boundary index at call time, oid)
 
     with tapemod.Tape(rng=rng, numpy_too=(fam == "cma")) as tp:
@@ -377,7 +437,7 @@ def evaluate(d):
                 at = len(tp.draws)
                 res = sel0(individuals, k)
                 rec.excluded.append((at, len(tp.draws)))
-                rec.trace.append((at, "S", positions_of(res, individuals), k, len(individuals)))
+                rec.trace.append((at, "S", positions_of(res, individuals), k, len(individuals), list(tp.draws[at:])))
                 return res
             tb.register("select", select)
 
@@ -408,6 +468,7 @@ def evaluate(d):
                                             % (k, x.fitness.values, raw(x)))
             rec.mark("B", [rec.of(x) for x in data], [wv(x.fitness) for x in data])
             boundaries.append({"n": len(data), "list": id(data), "truthful": truthful,
+                               "hof": ";".join("%s>%s" % (rec.gtok(x), wv(x.fitness)) for x in hof) or "-",
                                "best": max((x.fitness.wvalues for x in data), default=None),
                                "fits": [x.fitness.wvalues for x in data]})
         stats = SnapStats(boundary) if use_stats else None
@@ -462,10 +523,13 @@ def evaluate(d):
                         o = rec.new(x)
                     toks.append("%d:%s" % (o, rec.obj3(x)))
                 rec.mark("G", toks)
+                asktell.append([[rec.of(x) for x in pop_], None])
                 return pop_
 
             def update(pop_):
                 before = list(pop_)
+                if asktell:
+                    asktell[-1][1] = ";".join("%d:%s" % (rec.of(x), wv(x.fitness)) for x in pop_) or "-"
                 tell(pop_)
                 last_gu[0] = pop_
                 rec.mark("U", positions_of(pop_, before))
@@ -653,6 +717,25 @@ def evaluate(d):
                 orc = "best fitness got worse from generation %d (%r) to %d (%r)" % (
                     g - 1, boundaries[g - 1]["best"], g, boundaries[g]["best"])
                 break
+    # ---- the composed model: library selectors + HallOfFame model + list identity + ask/tell ----------
+    extra_lines, extra_ans = [], []
+    if use_hof and trace_err is None and not rec.contract and len(boundaries) == len(gens_b):
+        comp = composed_line(d, loop, gens_b[first:], gens, heap_tok, pops, rec, script, nbr_eff)
+        if comp is not None:
+            cb = "+".join("%s|%s|%s|%s" % (sl(b[1]), ";".join(b[2]) if b[2] else "-", boundaries[k]["hof"],
+                                            "-" if loop == "gu" else ("same" if boundaries[k]["list"] == pop_id else "other"))
+                          for k, (_, b) in enumerate(gens_b)) or "-"
+            if loop == "gu":
+                tells = "+".join("%s~%s" % (sl(a), t_ if t_ is not None else "none") for a, t_ in asktell) or "-"
+                cans = "log=%s evals=%s cb=%s tells=%s" % (log_tok, evals_tok, cb, tells)
+            else:
+                sels = []
+                for entries, _ in gens_b[first:]:
+                    S = [e for e in entries if e[0] == "S"]
+                    sels.append(sl(S[0][1]) if loop != "harm" and len(S) == 1 else "-")
+                cans = "log=%s evals=%s cb=%s sel=%s vlog=%s" % (log_tok, evals_tok, cb, "+".join(sels) or "-", sl(rec.events))
+            extra_lines.append(comp)
+            extra_ans.append(cans)
     if trace_err is not None:
         # the real run is not a run of the modelled machine (e.g. a different sequence of random draws): a break of the
         # correspondence (CONTRIBUTING, later conventions) unless the oracle already names the violated clause
@@ -666,8 +749,10 @@ def evaluate(d):
         line_r = "C03 harmr" + sfx + " %s %s %s %s %d %s %s %s %d %d %s" % (
             heap_tok, pops, table, script, nbr_eff, fbits(float(d.get("alpha", 0.05))), fbits(float(d.get("beta", 10))),
             fbits(float(d["gamma"])), d["mincutoff"], int(n0 * d.get("rho", 0.9) - 1), "+".join(gens_r) if gens_r else "-")
-        return Case(d, [line_for(gens), line_r], [ans, ans], orc, tag=tag, nontrivial=ngen >= 1)
-    return Case(d, [line_for(gens)], [ans], orc, tag=tag, nontrivial=ngen >= 1)
+        return Case(d, [line_for(gens), line_r] + extra_lines, [ans, ans] + extra_ans, orc,
+                    tag=tag + ("/composed" if extra_lines else ""), nontrivial=ngen >= 1)
+    return Case(d, [line_for(gens)] + extra_lines, [ans] + extra_ans, orc,
+                tag=tag + ("/composed" if extra_lines else ""), nontrivial=ngen >= 1)
 
 
 # ------------------------------------------------------------------------------------------
@@ -775,6 +860,19 @@ def generate(tier, rng, mult):
             d = mk_case(rng, loop, ngen)
             # every loop with and without hall of fame / Statistics / verbose output
             d["hof"], d["stats"], d["verbose"] = k % 2 == 0, k % 4 < 2, k == 3
+            yield d
+    # composed clauses first-class: hall of fame + statistics on, library selectors the model computes itself, small and
+    # larger halls of fame, partly pre-evaluated populations (the hall of fame must see valid-on-entry individuals)
+    for loop in ["plusbest", "plus", "comma", "simple", "gu", "pso", "harm"]:
+        for k in range(4):
+            d = mk_case(rng, loop, (1, 2, 3, 4)[k] if loop != "harm" else (1, 2, 1, 2)[k])
+            d["hof"], d["stats"], d["verbose"] = True, k % 2 == 0, False
+            d["hofsize"] = (1, 2, 3, 1)[k]
+            if d.get("sel") in ("roulette", "nsga2") or (loop in ("plus", "comma", "simple") and "sel" in d):
+                d["sel"] = ("best", "tourn2", "tourn3", "random")[k]
+            if d.get("inds"):
+                for j, s_ in enumerate(d["inds"]):
+                    s_["pre"] = (j + k) % 2 == 0
             yield d
     # big populations / offspring batches (> 128, > 256): minimisation and maximisation, small halls of fame
     for k, loop in enumerate(["simple", "plus", "comma", "plusbest", "gu", "pso", "nsga2", "gpsimple", "harm",
